@@ -7,21 +7,43 @@ pre-order (one branch statement per `if`/`while` at the position of its conditio
 lost, duplicated or reordered by lifting; in particular the step statement of a `for` loop
 (expanded by the parser into `{init; while (cond) {body; step}}`) sits inside the loop.
 
-The trace-inclusion clause itself (`C13_trace_statement` below) is stated but **not yet proved
-for all inputs**: it is decided per instance by `checks/c13.py`, which evaluates both executable
-semantics (`Trace.astTrace`, `Trace.cfgTrace`) on every real AST/CFG pair under every decision
-sequence up to a bound.
+The trace-inclusion clause is proved for all inputs (`C13_trace_inclusion`, `Lemmas/TracePaths.lean`): for
+every statement tree (arbitrary nesting of blocks, initialization blocks, `if`, `if/else`, `while`), every
+set of `return` locations and every sequence of branch/loop decisions, the statements the source program
+executes up to its first `return` are a prefix of the walk of the lifted CFG under the same decisions —
+for every sufficiently large walk budget (the walk of the spec takes a fuel argument; the theorem holds
+from some budget on, i.e. for the unbounded walk).  The proof builds, by mutual induction over the
+statement tree, a small-step *path* in the block vector for every run of the source semantics; paths are
+stable under every later step of the construction (`Path.mono` along `Ext`: a block whose outgoing edges
+are complete is never modified again, an open block only gets statements appended / its open false target
+resolved / a successor added), pending exits are connected by `complete_basic_block` and by the back edges
+(`connect_complete`, `connect_edges`), and every path is followed by `Trace.walk` (`path_walk`).
+`checks/c13.py` evaluates both executable semantics (`Trace.astTrace`, `Trace.cfgTrace` with its concrete
+budget) on every real AST/CFG pair under every decision sequence up to a bound: that is the tie to the
+code (and covers the concrete budget of `cfgTrace`, which the theorem does not bound).
 -/
 import Circomspect.Lemmas.TraceLemmas
+import Circomspect.Lemmas.TracePaths
 
 namespace Circomspect.C13
 open Circomspect CfgLift TraceLemmas Trace
 
-/-- the full claim: for all programs and all decision sequences the source trace (up to the first
-    return) is a prefix of the graph walk (statement, not theorem: decided per instance) -/
+/-- the claim with the concrete walk budget of `cfgTrace` (evaluated per instance by the check; the theorem
+    below is for every sufficiently large budget) -/
 def C13_trace_statement : Prop :=
   ∀ (rets : List Loc) (body : Stmt) (bs : List Block) (ps : List Nat) (ds : List Bool),
     lift body = .ok bs ps → isPrefix (astTrace rets body ds) (cfgTrace bs ds) = true
+
+/-- **trace inclusion, for all programs and all decision sequences**: the source trace (up to the first
+    `return`) is a prefix of the graph walk, for every sufficiently large walk budget -/
+theorem C13_trace_inclusion (rets : List Loc) (body : Stmt) (bs : List Block) (ps : List Nat) (ds : List Bool)
+    (h : lift body = .ok bs ps) :
+    ∃ N, ∀ fuel, N ≤ fuel → isPrefix (astTrace rets body ds) (walk bs fuel 0 ds []) = true :=
+  TracePaths.trace_inclusion rets body bs ps ds h
+
+/-- the walk only ever extends with more budget: what it has returned stays a prefix -/
+theorem C13_walk_grows (bs : List Block) (fuel cur : Nat) (ds : List Bool) (acc : List Loc) :
+    acc <+: walk bs fuel cur ds acc := TracePaths.walk_acc_prefix bs fuel cur ds acc
 
 /-- statement conservation in program order, for every statement tree -/
 theorem C13_conservation (body : Stmt) (bs : List Block) (ps : List Nat) (h : lift body = .ok bs ps) :
